@@ -33,12 +33,29 @@ func filt(k string) Proc { return Proc{Key: k, Type: tFilter, Hdr: "x-" + string
 func gen1(k string) Proc { return Proc{Key: k, Type: tGen} }
 func mock(k string) Proc { return Proc{Key: k, Type: tMock} }
 
+// the same key declared by several flows: the parameters tell the instances apart
+func filtH(k, hdr string) Proc       { return Proc{Key: k, Type: tFilter, Hdr: hdr} }
+func genS(k string, status int) Proc { return Proc{Key: k, Type: tGen, Status: status} }
+
 // Case is what a replay file carries.
 type Case struct {
 	Config Config  `json:"config"`
 	Graphs []GFlow `json:"graphs_as_read_by_harness"`
 	Txn    Txn     `json:"transaction"`
 	Oracle []Row   `json:"oracle"`
+	// what every declared processor INSTANCE outputs in this transaction (input of
+	// the Coq model, which resolves node -> instance itself), and per observed
+	// event the instance its early response names
+	Insts []IRow  `json:"instance_oracle"`
+	Marks []*Inst `json:"instance_named_by_early_response"`
+}
+
+// IRow: instance (declaring flow, key), direction, output.
+type IRow struct {
+	Inst  Inst   `json:"instance"`
+	Dir   string `json:"dir"`
+	Cond  string `json:"cond"`
+	Early bool   `json:"answers_request"`
 }
 
 type Row struct {
@@ -53,19 +70,107 @@ type Row struct {
 
 func procOf(cfg *Config, owner, key string) *Proc {
 	// "B.k" names processor k declared by flow B (cross-flow use)
-	if i := strings.Index(key, "."); i >= 0 {
-		owner, key = key[:i], key[i+1:]
+	if by, name := splitRef(key); by != "" {
+		owner, key = by, name
 	}
-	f := cfg.flow(owner)
-	if f == nil {
-		return nil
+	return cfg.proc(Inst{owner, key})
+}
+
+// predict: what a declared processor outputs in direction dn given the headers of
+// the transaction (ok = false: stateful, its output is taken as observed).
+func predict(p *Proc, dn string, has map[string]bool) (o Out, ok bool) {
+	switch {
+	case p == nil: // quota system processor
+	case p.Type == tFilter:
+		o.Cond = "miss"
+		if has[p.Hdr] {
+			o.Cond = "hit"
+		}
+	case p.Type == tGen:
+		o.Early = dn == "req"
+	case p.Type == tLimit:
+		return Out{Cond: "below_limit"}, false
 	}
-	for i := range f.Procs {
-		if f.Procs[i].Key == key {
-			return &f.Procs[i]
+	return o, true
+}
+
+// instOracle: the behaviour of every processor instance some node of the
+// configuration runs, by the instance the configuration NAMES for the node.  A
+// Limiter's output is the one observed at a node that names it (two different
+// observed outputs of one instance: not a function, the transaction is skipped).
+func instOracle(cfg *Config, gs []GFlow, t *Txn) (rows []IRow, consistent bool) {
+	has := map[string]bool{}
+	for _, h := range t.Headers {
+		has[h] = true
+	}
+	seen := map[string]string{}
+	consistent = true
+	for _, e := range t.Events {
+		g := flowByName(gs, e.Flow)
+		if g == nil {
+			continue
+		}
+		k := g.instOf(e.Key).String() + "\x00" + e.Dir
+		if prev, ok := seen[k]; ok && prev != e.Cond {
+			consistent = false
+		}
+		seen[k] = e.Cond
+	}
+	done := map[string]bool{}
+	for i := range gs {
+		g := &gs[i]
+		for di, d := range []*GDir{&g.Req, &g.Res} {
+			dn := []string{"req", "res"}[di]
+			for _, n := range d.Nodes {
+				in := g.instOf(n.Key)
+				k := in.String() + "\x00" + dn
+				if done[k] {
+					continue
+				}
+				done[k] = true
+				o, ok := predict(cfg.proc(in), dn, has)
+				if !ok {
+					if v, obs := seen[k]; obs {
+						o.Cond = v
+					}
+				}
+				rows = append(rows, IRow{in, dn, o.Cond, o.Early})
+			}
 		}
 	}
-	return nil
+	// declared but connected nowhere: they have a behaviour all the same (a wrong
+	// resolution may run them)
+	for i := range cfg.Flows {
+		f := &cfg.Flows[i]
+		for j := range f.Procs {
+			in := Inst{f.Name, f.Procs[j].Key}
+			for _, dn := range []string{"req", "res"} {
+				if k := in.String() + "\x00" + dn; !done[k] {
+					done[k] = true
+					o, _ := predict(&f.Procs[j], dn, has)
+					rows = append(rows, IRow{in, dn, o.Cond, o.Early})
+				}
+			}
+		}
+	}
+	return rows, consistent
+}
+
+// earlyOf: the instance an observed early response ("<status> <body>") names.
+func earlyOf(cfg *Config, early string) *Inst {
+	if early == "" {
+		return nil
+	}
+	for i := range cfg.Flows {
+		f := &cfg.Flows[i]
+		for j := range f.Procs {
+			p := &f.Procs[j]
+			if p.Type == tGen && early == fmt.Sprintf("%d %s", p.genStatus(), genBody(f.Name, p.Key)) {
+				return &Inst{f.Name, p.Key}
+			}
+		}
+	}
+	return &Inst{"?", early} // an early response no declared processor produces
 }
 
 // oracle predicts what every processor of every flow outputs in this
@@ -94,20 +199,10 @@ func oracle(cfg *Config, gs []GFlow, t *Txn) (Oracle, []Row, bool) {
 		for di, d := range []*GDir{&g.Req, &g.Res} {
 			dn := []string{"req", "res"}[di]
 			for _, n := range d.Nodes {
-				var o Out
-				p := procOf(cfg, g.Owner[n.Key], n.Key)
-				switch {
-				case p == nil: // quota system processor
-				case p.Type == tFilter:
-					o.Cond = "miss"
-					if has[p.Hdr] {
-						o.Cond = "hit"
-					}
-				case p.Type == tGen:
-					o.Early = dn == "req"
-				case p.Type == tLimit:
-					o.Cond = "below_limit"
-					if v, ok := seenLim[g.Name+"\x00"+n.Key+"\x00"+dn]; ok {
+				// the processor the configuration names for the node
+				o, ok := predict(cfg.proc(g.instOf(n.Key)), dn, has)
+				if !ok {
+					if v, obs := seenLim[g.Name+"\x00"+n.Key+"\x00"+dn]; obs {
 						o.Cond = v
 					}
 				}
@@ -170,6 +265,20 @@ func coqSel(s Selection, fl *interner) string {
 	return c.Tuple(ids(s.Start), ids(s.User), ids(s.End))
 }
 
+func coqMentions(ms []Mention, keys, fl *interner) string {
+	return c.MapList(ms, func(m Mention) string {
+		by, name := splitRef(m.Ref)
+		b := "None"
+		if by != "" {
+			b = c.Some(c.Z(fl.id(by)))
+		}
+		return c.Tuple(c.Z(fl.id(m.Cur)), c.Tuple(c.Z(keys.id(m.Ref)), b, c.Z(keys.id(name))))
+	})
+}
+
+// coqCase: Instance.case_i.  The model gets the graphs, the references of the
+// connections in reading order, the declared instances and what every INSTANCE
+// outputs; which instance a node runs is resolved in Coq (Instance.resolve).
 func coqCase(k *Case) string {
 	keys := &interner{m: map[string]int64{}}
 	fl := &interner{m: map[string]int64{}}
@@ -188,15 +297,42 @@ func coqCase(k *Case) string {
 		s1 = coqSel(t.SelRes, fl)
 		s2 = "None"
 	}
-	rows := c.MapList(k.Oracle, func(r Row) string {
-		return c.Tuple(c.Z(fl.id(r.Flow)), c.Z(keys.id(r.Key)), c.B(r.Dir == "req"), c.Z(condID(r.Cond)), c.B(r.Early))
-	})
 	evs := c.MapList(t.Events, func(e Event) string {
 		return c.Tuple(c.Z(fl.id(e.Flow)), c.Z(keys.id(e.Key)), c.B(e.Dir == "req"), c.Z(condID(e.Cond)))
 	})
 	code := map[string]int64{"none": 0, "answered": 1, "error": 2}[t.Result]
-	base := c.Tuple(flows, c.Tuple(s1, s2), rows, c.B(t.Dir == "req"), c.Tuple(evs, c.Z(code)))
-	return c.Tuple(base, coqQuotaGroups(&k.Config, keys, fl))
+	refs := c.MapList(k.Graphs, func(g GFlow) string {
+		return c.Tuple(c.Z(fl.id(g.Name)), coqMentions(g.ReqRefs, keys, fl), coqMentions(g.ResRefs, keys, fl))
+	})
+	inst := func(i Inst) string { return c.Tuple(c.Z(fl.id(i.Flow)), c.Z(keys.id(i.Name))) }
+	var decl []Inst
+	for i := range k.Config.Flows {
+		for _, p := range k.Config.Flows[i].Procs {
+			decl = append(decl, Inst{k.Config.Flows[i].Name, p.Key})
+		}
+	}
+	for i := range k.Graphs { // the processors of the quota system flows
+		g := &k.Graphs[i]
+		if g.Kind == "user" {
+			continue
+		}
+		for _, d := range []*GDir{&g.Req, &g.Res} {
+			for _, n := range d.Nodes {
+				decl = append(decl, Inst{g.Name, n.Key})
+			}
+		}
+	}
+	irows := c.MapList(k.Insts, func(r IRow) string {
+		return c.Tuple(c.Z(fl.id(r.Inst.Flow)), c.Z(keys.id(r.Inst.Name)), c.B(r.Dir == "req"), c.Z(condID(r.Cond)), c.B(r.Early))
+	})
+	marks := c.MapList(k.Marks, func(m *Inst) string {
+		if m == nil {
+			return "None"
+		}
+		return c.Some(inst(*m))
+	})
+	return c.Tuple(flows, c.Tuple(s1, s2), c.B(t.Dir == "req"), c.Tuple(evs, c.Z(code)),
+		coqQuotaGroups(&k.Config, keys, fl), refs, c.MapList(decl, inst), irows, marks)
 }
 
 // coqQuotaGroups: the quotas of the configuration grouped by filter, as listed in
@@ -259,11 +395,19 @@ func runConfig(o *c.Out, cfg Config, txns []Txn, label string) {
 
 func runTxn(o *c.Out, cfg *Config, gs []GFlow, t *Txn) {
 	orc, rows, consistent := oracle(cfg, gs, t)
-	if !consistent {
+	irows, consistent2 := instOracle(cfg, gs, t)
+	if !consistent || !consistent2 {
 		o.Count("skipped:stateful-processor-changed-output-within-transaction")
 		return
 	}
-	k := Case{Config: *cfg, Graphs: gs, Txn: *t, Oracle: rows}
+	k := Case{Config: *cfg, Graphs: gs, Txn: *t, Oracle: rows, Insts: irows}
+	for i := range t.Events {
+		var m *Inst
+		if i < len(t.Early) {
+			m = earlyOf(cfg, t.Early[i])
+		}
+		k.Marks = append(k.Marks, m)
+	}
 	handed := false
 	fan := false
 	for _, e := range t.Events {
@@ -288,6 +432,38 @@ func runTxn(o *c.Out, cfg *Config, gs []GFlow, t *Txn) {
 	if handed {
 		o.Count("answered-by-processor")
 	}
+	// a node "G.k" ran in a flow that declares k itself / in any flow
+	has := map[string]bool{}
+	for _, h := range t.Headers {
+		has[h] = true
+	}
+	refRan, twinRan, told := false, false, false
+	for _, e := range t.Events {
+		by, name := splitRef(e.Key)
+		if by == "" {
+			continue
+		}
+		refRan = true
+		own, named := cfg.proc(Inst{e.Flow, name}), cfg.proc(Inst{by, name})
+		if own == nil || named == nil {
+			continue
+		}
+		twinRan = true
+		a, _ := predict(own, e.Dir, has)
+		b, _ := predict(named, e.Dir, has)
+		if a != b || own.Type != named.Type || (named.Type == tGen && e.Dir == "req") {
+			told = true
+		}
+	}
+	if refRan {
+		o.Count("instance:node-naming-another-flows-processor-ran")
+	}
+	if twinRan {
+		o.Count("instance:...-in-a-flow-declaring-the-same-key")
+	}
+	if told {
+		o.Count("instance:...-and-the-two-instances-differ-in-effect")
+	}
 	nf := len(t.SelReq.User)
 	if t.Dir == "res" {
 		nf = len(t.SelRes.User)
@@ -297,7 +473,7 @@ func runTxn(o *c.Out, cfg *Config, gs []GFlow, t *Txn) {
 		o.Count("with-system-flows")
 	}
 	o.MonitorChecked(1)
-	hits, free := monitor(gs, t, orc)
+	hits, free := monitor(cfg, gs, t, orc)
 	if free {
 		o.Count("F-C04d:answering-processor-without-response-node")
 	}
@@ -364,6 +540,28 @@ func fixedConfigs() []Config {
 			{Name: "X", URL: "c04.test/x", Procs: []Proc{filt("f2"), filt("f3"), filt("t2")},
 				Req: []Conn{s2p("f2"), p2p("f2", "hit", "f3"), p2s("f2", "miss"), p2s("f3", "hit")},
 				Res: []Conn{s2p("t2"), p2s("t2", "hit")}}}},
+		// the same key declared by two flows, and a flow that uses the OTHER flow's
+		// processor ("B.k") while declaring k itself: (1) A's own k only on its response
+		// path, B elsewhere; (2) GenerateResponse twins (status and body tell them
+		// apart), B selected too; (3) both k and B.k on A's request path
+		{Flows: []FlowCfg{
+			{Name: "A", URL: u, Procs: []Proc{filt("f1"), filtH("k", "x-a-k")},
+				Req: []Conn{s2p("f1"), p2p("f1", "hit", "B.k"), p2s("B.k", "hit")},
+				Res: []Conn{s2p("k"), p2s("k", "hit")}},
+			{Name: "B", URL: "c04.test/other", Procs: []Proc{filtH("k", "x-b-k")},
+				Req: []Conn{s2p("k"), p2s("k", "hit")}, Res: []Conn{s2s()}}}},
+		{Flows: []FlowCfg{
+			{Name: "A", URL: u, Procs: []Proc{filt("f1"), genS("k", 503), filt("w")},
+				Req: []Conn{s2p("f1"), p2p("f1", "hit", "B.k"), p2p("f1", "miss", "k")},
+				Res: []Conn{s2p("w"), p2s("w", "hit"), p2s("k", ""), p2p("B.k", "", "w")}},
+			{Name: "B", URL: u, Procs: []Proc{filt("f2"), genS("k", 418)},
+				Req: []Conn{s2p("f2"), p2p("f2", "hit", "k"), p2s("f2", "miss")}, Res: []Conn{p2s("k", "")}}}},
+		{Flows: []FlowCfg{
+			{Name: "A", URL: u, Procs: []Proc{filt("f1"), filtH("k", "x-a-k")},
+				Req: []Conn{s2p("f1"), p2p("f1", "hit", "k"), p2p("k", "hit", "B.k"), p2s("k", "miss"), p2s("B.k", "hit")},
+				Res: []Conn{s2p("B.k"), p2p("B.k", "miss", "k"), p2s("k", "hit")}},
+			{Name: "B", URL: u, Procs: []Proc{filtH("k", "x-b-k"), filt("t2")},
+				Req: []Conn{s2p("k"), p2s("k", "hit")}, Res: []Conn{s2p("t2"), p2s("t2", "hit")}}}},
 		// three quotas behind one filter: one system flow holding all their processors
 		{Flows: []FlowCfg{
 			{Name: "A", URL: u, Procs: []Proc{filt("f1")}, Req: []Conn{s2p("f1"), p2s("f1", "hit")}, Res: []Conn{s2s()}}},
@@ -377,6 +575,24 @@ func txnsFor(r *c.Rng, cfg *Config, limit int) []Txn {
 	var out []Txn
 	for _, h := range headerSets(r, hs, limit) {
 		out = append(out, Txn{Dir: "req", URL: mainURL, Headers: h})
+	}
+	// two Filters under one key, one of them reached through "G.<key>": requests and
+	// responses that carry exactly one of the two steering headers (and all / none of
+	// the others) - when the exhaustive listing above did not already hold them
+	if pairs := clashPairs(cfg); len(pairs) > 0 && len(out) < 1<<len(hs) {
+		for _, pr := range pairs {
+			for side := 0; side < 2; side++ {
+				var all []string
+				for _, h := range hs {
+					if h != pr[side] {
+						all = append(all, h)
+					}
+				}
+				out = append(out, Txn{Dir: "req", URL: mainURL, Headers: all},
+					Txn{Dir: "req", URL: mainURL, Headers: []string{pr[1-side]}},
+					Txn{Dir: "res", URL: mainURL, Headers: all})
+			}
+		}
 	}
 	// responses: only the Filters that occur on a response side matter
 	var rh []string
@@ -417,7 +633,7 @@ func main() {
 	}
 	o := c.NewOut("C04")
 	o.ShardSize = 150
-	o.DeclareSuite("txn", "From Verif Require Import C04.Model C04.Quota C04.Suite.", "case_q", "run_case_checked")
+	o.DeclareSuite("txn", "From Verif Require Import C04.Model C04.Quota C04.Suite C04.Instance.", "case_i", "run_case_inst")
 	e2eDeclare(o) // suite "e2e" (e2e.go): selection + execution + combination in one run
 	o.Rule("hand-written witness configurations, then random configurations: 1-3 user flows (<= 6 request and <= 4 " +
 		"response processors each; Filter / GenerateResponse / MockProcessor / Limiter; fan-out <= 3; unreachable " +
@@ -425,7 +641,10 @@ func main() {
 		"connections or none at all), optional shared flow entered through `flow: at end` / `flow: at start` " +
 		"references, optional 1-3 quotas (fixed / concurrent, equal or different filters) giving system flows; per " +
 		"configuration every assignment of the Filter outcomes (all subsets of the steering headers when <= 4 Filters, " +
-		"else a sample with both extremes) as request and as response transactions; distinct = distinct (graph, " +
+		"else a sample with both extremes) as request and as response transactions; the same processor key declared by " +
+		"several flows with different parameters (steering header / status and body of the early response), flows using " +
+		"`G.<key>` while declaring <key> themselves (plus the transactions carrying exactly one of the two steering " +
+		"headers); distinct = distinct (graph, " +
 		"selection, oracle, observed events); non-trivial = at least two processors ran and either a processor " +
 		"answered the request or a processor with several connections was passed" + e2eRule)
 	if e2eReplay(o) {
